@@ -50,6 +50,7 @@ func runC04(c *Ctx, r *Report) {
 	c04PreparedRequest(c, r, "C04.R15")
 	c04HelloConn(c, r, "C04.R16")
 	c04HeaderAddrs(c, r, "C04.R17")
+	c09CloseOnce(c, r, "C04.R18") // no history of calls on a UDP connection ends the process: a handler (or a library given the connection) that closes it must not make the server's own Close close the channel a second time
 	c08QuicAddr(c, r, "C04.R9") // a panic of the library, reachable with two simultaneous datagrams
 	// R6
 	r.rule("C04.R6", "no method call on a nil upstream slot in any selection policy (path evaluation, pools of 0..3)", 6)
@@ -873,10 +874,13 @@ var assertScenarios = map[string]func() *Scenario{
 	"modules/l4http.(*MatchHTTP).handleHttp2WithPriorKnowledge": func() *Scenario {
 		const hf = "*golang.org/x/net/http2.HeadersFrame"
 		return &Scenario{
-			Name:            "http2 frames",
-			MaxVisit:        14,
-			MaxPaths:        20000,
-			Inline:          func(f *ssa.Function) bool { return false },
+			Name:     "http2 frames",
+			MaxVisit: 14,
+			MaxPaths: 20000,
+			// the package's own plain helpers (a frame-reading loop, say) are evaluated in place
+			Inline: func(f *ssa.Function) bool {
+				return f.Pkg != nil && short(f.Pkg.Pkg.Path()) == "modules/l4http" && f.Signature.Recv() == nil && f.Parent() == nil && len(f.Blocks) > 0
+			},
 			NoDefaultInline: true,
 			Alts: func(callee string, args []SV, ev *symEval, st *symState) []CallAlt {
 				if strings.HasSuffix(callee, "http2.Framer).ReadFrame") {
@@ -907,6 +911,8 @@ var assertScenarios = map[string]func() *Scenario{
 					return SV{K: "tuple", Desc: "df", Elems: []SV{{K: "slice", Desc: "hdrs", Len: &z, Cap: &z}, {K: "ref", Known: true, Desc: "decodeErr"}}}, true
 				case callee == "io.ReadFull":
 					return SV{K: "tuple", Desc: "rd", Elems: []SV{{K: "int", Desc: "n"}, symNil()}}, true
+				case callee == "fmt.Errorf" || callee == "errors.New":
+					return SV{K: "ref", Known: true, Desc: ev.fresh("err")}, true // never nil
 				}
 				return SV{}, false
 			},
